@@ -4,7 +4,7 @@
 From Coq Require Import List Arith Reals Lra Lia Bool ZArith Psatz.
 From Coq Require Nsatz.
 From SplipyModel Require Import Spec.BSpline Model.Num Model.BasisDef Model.Tensor Model.Obj Model.Affine Model.DefaultObj
-  Gen.RotationMatrix Proofs.EvalConsequences Proofs.TensorLemmas Proofs.TensorApply Proofs.OrderRaise
+  Gen.RotationMatrix Proofs.KnotList Proofs.EvalConsequences Proofs.TensorLemmas Proofs.TensorApply Proofs.OrderRaise
   Proofs.PlaceProofs Proofs.CompositeShapes.
 Import ListNotations.
 Open Scope R_scope.
@@ -743,6 +743,111 @@ Proof.
   replace ((k m - k m) / (k (S m) - k m)) with 0 by (field; lra). ring.
 Qed.
 
+(* ---------- 3.2b polygon without t=: the knots are the accumulated chord lengths ---------- *)
+(*      knot = [0, 0]
+        prevPt = points[0]
+        for pt in points[1:]:
+            dist = 0
+            for (x0, x1) in zip(prevPt, pt):  # loop over (x,y) and maybe z-coordinate
+                dist += (x1 - x0)**2
+            knot.append(knot[-1] + sqrt(dist))
+            prevPt = pt
+        knot.append(knot[-1])                                                                              *)
+Definition sqdist (p q : list R) : R :=
+  fold_left (fun acc xy => acc + (snd xy - fst xy) * (snd xy - fst xy)) (combine p q) 0.
+Fixpoint poly_acc (prev : list R) (pts : list (list R)) (lastk : R) : list R :=
+  match pts with
+  | [] => []
+  | pt :: rest => let kk := lastk + sqrt (sqdist prev pt) in kk :: poly_acc pt rest kk
+  end.
+Definition poly_knots (pts : list (list R)) : list R :=
+  match pts with
+  | [] => []
+  | p0 :: rest => let body := 0 :: 0 :: poly_acc p0 rest 0 in body ++ [last body 0]
+  end.
+
+Definition adj (l : list R) : Prop := forall i, (S i < length l)%nat -> nth i l 0 <= nth (S i) l 0.
+
+Lemma adj_cons a l : (l <> [] -> a <= nth 0 l 0) -> adj l -> adj (a :: l).
+Proof.
+  intros Ha Hl [|i] Hi; cbn [nth length] in *.
+  - apply Ha. destruct l; [cbn in Hi; lia|discriminate].
+  - apply Hl. lia.
+Qed.
+
+Lemma adj_snoc_last l : adj l -> adj (l ++ [last l 0]).
+Proof.
+  intros Hl i Hi. rewrite app_length in Hi. cbn [length] in Hi.
+  destruct (Nat.eq_dec (S i) (length l)) as [E|E].
+  - rewrite app_nth1 by lia. rewrite (app_nth2 l) by lia. rewrite E, Nat.sub_diag. cbn [nth].
+    assert (Hne : l <> []) by (destruct l; [cbn in E; lia|discriminate]).
+    rewrite <- (nth_last_len l 0 Hne). replace (length l - 1)%nat with i by lia. lra.
+  - rewrite !app_nth1 by lia. apply Hl. lia.
+Qed.
+
+Lemma adj_mono l : adj l -> forall i j, (i <= j < length l)%nat -> nth i l 0 <= nth j l 0.
+Proof.
+  intros Hl i j Hij. induction j as [|j IH]; [replace i with 0%nat by lia; lra|].
+  destruct (Nat.eq_dec i (S j)) as [->|N]; [lra|].
+  apply Rle_trans with (nth j l 0); [apply IH; lia|apply Hl; lia].
+Qed.
+
+Lemma adj_sorted_kn l : adj l -> sorted (@kn R NumR l).
+Proof.
+  intros Hl. destruct l as [|a l']; [intros i j _; unfold kn; cbn; destruct i, j; lra|].
+  set (l := a :: l') in *. assert (Hne : l <> []) by discriminate.
+  assert (K : forall i, @kn R NumR l i = nth (Nat.min i (length l - 1)) l 0).
+  { intros i. destruct (Nat.lt_ge_cases i (length l)) as [H|H].
+    - rewrite (kn_in l i H 0), Nat.min_l by lia. reflexivity.
+    - rewrite (kn_out l i H), Nat.min_r by lia. symmetry. apply (nth_last_len l 0 Hne). }
+  intros i j Hij. rewrite !K. apply (adj_mono l Hl). unfold l. cbn [length]. lia.
+Qed.
+
+Lemma poly_acc_adj : forall pts prev k0, adj (k0 :: poly_acc prev pts k0).
+Proof.
+  induction pts as [|pt rest IH]; intros prev k0; cbn [poly_acc].
+  - intros i Hi. cbn in Hi. lia.
+  - cbv zeta. apply adj_cons; [|apply IH]. intros _. cbn [nth]. pose proof (sqrt_pos (sqdist prev pt)). lra.
+Qed.
+
+Theorem poly_knots_sorted pts : sorted (@kn R NumR (poly_knots pts)).
+Proof.
+  apply adj_sorted_kn. destruct pts as [|p0 rest]; [intros i Hi; cbn in Hi; lia|].
+  unfold poly_knots. cbv zeta. apply adj_snoc_last. apply adj_cons; [intros _; cbn [nth]; lra|apply poly_acc_adj].
+Qed.
+
+(* knot j+1 is the parameter of point j; consecutive ones differ by the chord length *)
+Lemma poly_acc_nth : forall pts prev k0 j, (j < length pts)%nat ->
+  nth (S j) (k0 :: poly_acc prev pts k0) 0
+  = nth j (k0 :: poly_acc prev pts k0) 0 + sqrt (sqdist (nth j (prev :: pts) []) (nth (S j) (prev :: pts) [])).
+Proof.
+  induction pts as [|pt rest IH]; intros prev k0 j Hj; [cbn in Hj; lia|].
+  cbn [poly_acc]. cbv zeta. destruct j as [|j]; [reflexivity|].
+  change (nth (S (S j)) (k0 :: k0 + sqrt (sqdist prev pt) :: poly_acc pt rest (k0 + sqrt (sqdist prev pt))) 0)
+    with (nth (S j) (k0 + sqrt (sqdist prev pt) :: poly_acc pt rest (k0 + sqrt (sqdist prev pt))) 0).
+  change (nth (S j) (k0 :: k0 + sqrt (sqdist prev pt) :: poly_acc pt rest (k0 + sqrt (sqdist prev pt))) 0)
+    with (nth j (k0 + sqrt (sqdist prev pt) :: poly_acc pt rest (k0 + sqrt (sqdist prev pt))) 0).
+  rewrite IH by (cbn in Hj; lia). reflexivity.
+Qed.
+
+Lemma poly_acc_length : forall pts prev k0, length (poly_acc prev pts k0) = length pts.
+Proof. induction pts as [|q rest IH]; intros p k0; cbn [poly_acc length]; [reflexivity|]. cbv zeta. rewrite IH. reflexivity. Qed.
+
+Theorem poly_knots_chord pts j : (S j < length pts)%nat ->
+  @kn R NumR (poly_knots pts) 1 = 0 /\
+  @kn R NumR (poly_knots pts) (S (S j)) = @kn R NumR (poly_knots pts) (S j) + sqrt (sqdist (nth j pts []) (nth (S j) pts [])).
+Proof.
+  intros Hj. destruct pts as [|p0 rest]; [cbn in Hj; lia|]. cbn [length] in Hj.
+  pose proof (poly_acc_length rest p0 0) as HL.
+  assert (Hlen : length (poly_knots (p0 :: rest)) = (length rest + 3)%nat).
+  { unfold poly_knots. cbv zeta. rewrite app_length. cbn [length]. rewrite HL. lia. }
+  assert (K : forall i, (i <= length rest)%nat -> @kn R NumR (poly_knots (p0 :: rest)) (S i) = nth i (0 :: poly_acc p0 rest 0) 0).
+  { intros i Hi. rewrite (kn_in _ (S i) ltac:(rewrite Hlen; lia) 0). unfold poly_knots. cbv zeta.
+    rewrite app_nth1 by (cbn [length]; rewrite HL; lia). reflexivity. }
+  split; [rewrite (K 0%nat) by lia; reflexivity|].
+  rewrite (K (S j)), (K j) by lia. apply (poly_acc_nth rest p0 0 j). lia.
+Qed.
+
 (* ---------- 3.3 n_gon(n, r, center, normal) ---------- *)
 (*      dt = 2 * pi / n
         knot = [-1]
@@ -1061,24 +1166,3 @@ Proof.
     + rewrite sin_PI2, HX, Hrad. unfold tp_unit_normal. rewrite Hs. unfold tp_normal. v3. field.
 Qed.
 
-Print Assumptions tp_circumcentre.
-Print Assumptions tp_circumcentre_unique.
-Print Assumptions tp_solve_is_centre.
-Print Assumptions arc_frame.
-Print Assumptions arc_end_vector.
-Print Assumptions arc_passes_between.
-Print Assumptions three_point_arc.
-Print Assumptions three_point_arc_through_middle.
-Print Assumptions three_point_arc_planar.
-Print Assumptions three_point_arc_instance.
-Print Assumptions line_eval.
-Print Assumptions polygon_eval.
-Print Assumptions polygon_interpolates.
-Print Assumptions ngon_ccw.
-Print Assumptions ngon_eval.
-Print Assumptions ngon_placed.
-Print Assumptions ngon_placed_inside.
-Print Assumptions square_model.
-Print Assumptions square_eval.
-Print Assumptions cube_model.
-Print Assumptions cube_eval.
